@@ -223,6 +223,13 @@ static void huge_case(unsigned l, unsigned r0, unsigned w0, unsigned pre)
 	mprotect(lastpg - 4096, 2 * 4096, PROT_READ | PROT_WRITE);
 	/* bytes just outside the ring (same pages) carry a pattern */
 	for (uint8_t *q = ringp + l; q < lastpg + 4096; q++) *q = 0xA5;
+	/* ... and the pages the two indices start on (the script moves each index by a handful of slots at most) */
+	for (int wh = 0; wh < 2; wh++) {
+		uintptr_t a = ((uintptr_t)(ringp + (wh ? w0 : r0))) & ~(uintptr_t)4095;
+		uintptr_t lo = a - 4096 < (uintptr_t)ringp ? ((uintptr_t)ringp & ~(uintptr_t)4095) : a - 4096;
+		uintptr_t hi = a + 2 * 4096 > (uintptr_t)(lastpg + 4096) ? (uintptr_t)(lastpg + 4096) : a + 2 * 4096;
+		mprotect((void *)lo, hi - lo, PROT_READ | PROT_WRITE);
+	}
 	ringbuf_init(&hrb, ringp, l);
 	atomic_store(&hrb.readi, r0);
 	atomic_store(&hrb.writei, w0);
@@ -250,6 +257,15 @@ static void huge(void)
 		huge_case(l, l - 1, l - 1, 0);          /* empty at the last slot */
 		huge_case(l, l - 2, l - 1, 1);
 		huge_case(l, 1, 0, l - 1);              /* full, wrapped */
+		/* index distances that coincide with 2^32 - len (and its neighbours) in 32-bit arithmetic */
+		unsigned k1 = 0u - l;                   /* 2^32 - len, below len for every len above 2^31 */
+		for (int dlt = -1; dlt <= 1; dlt++) {
+			unsigned k = k1 + dlt;
+			if (k == 0 || k >= l) continue;
+			huge_case(l, 0, k, k);              /* k unread bytes from slot 0 */
+			huge_case(l, k, 0, l - k);          /* the read index k ahead of a wrapped write index */
+			if (k + 5 < l) huge_case(l, 5, k + 5, k);
+		}
 	}
 }
 
